@@ -36,8 +36,10 @@ bool try_lock(struct pmutex *self, char const *description, struct error_code *e
 __CPROVER_requires(PRE_COMMON && PRE_EC)
 /* true <=> the owner was invalid in the critical section that decided; then owner == self */
 __CPROVER_ensures(__CPROVER_return_value ==> (self->owner_id_ == g_self && g_trans == 1 && g_trans_from == VX_INVALID_ID && g_trans_to == g_self))
-/* false => the owner was not invalid, and no change */
-__CPROVER_ensures(!__CPROVER_return_value ==> (g_cs_owner != VX_INVALID_ID && g_trans == 0 && self->owner_id_ == g_cs_owner))
+/* false => no change.  (C06 only demands "succeeds only when it really acquired": a refusal needs no justification -- a
+ * try_lock that gives up when the INTERNAL lock is busy is a legitimate implementation -- so nothing is required of the
+ * owner seen; when a critical section was entered, the owner is the one it found.) */
+__CPROVER_ensures(!__CPROVER_return_value ==> (g_trans == 0 && (g_releases == 0 || self->owner_id_ == g_cs_owner)))
 __CPROVER_ensures(!self->mtx_.held && g_waits == 0 && g_errs == 0 && !g_thrown && g_notifies == 0 && vx_throws.value == pika_error_success)
 __CPROVER_assigns(MTX_FRAME)
 //@LIFT body
